@@ -31,6 +31,20 @@ def gen_cases(ctx, n):
             cases.append({"id": cid, "preset": preset, "num_tune": nt, "num_draws": 3, "dim": 2,
                           "seed": 11 + cid, "maxdepth": 4})
             cid += 1
+    # no jitter and an empty final step-size window: the averaged step size must still be installed
+    # after warmup (floor(step_size_window * num_tune) = 0 for small num_tune, or window 0.0)
+    for preset in EUCLID:
+        for nt, ssw in [(3, None), (6, None), (50, 0.0), (120, 0.0), (1, None)]:
+            c = {"id": cid, "preset": preset, "num_tune": nt, "num_draws": 4, "dim": 2, "seed": 900 + cid,
+                 "maxdepth": 4, "jitter": None}
+            if ssw is not None:
+                c["step_size_window"] = ssw
+            if preset.endswith("nuts"):
+                c["method"] = "dual"
+            else:
+                c["fixed_step"] = 0.25
+            cases.append(c)
+            cid += 1
     # flow presets: the final step-size window starts exactly on a scheduled update draw
     # (multiples of 10 below draw 100, multiples of update_freq afterwards) and just beside one
     for preset in FLOW:
@@ -327,7 +341,7 @@ def hbar_checks(cases, outs, models):
 
 def run(ctx):
     prop = ctx.prop
-    n_cases = 90 if ctx.tier == "quick" else 600
+    n_cases = 150 if ctx.tier == "quick" else 700
     # 1. proofs + audit
     audit_forbidden(ctx)
     check_property_file(ctx, prop, allow_axioms=AX)
